@@ -13,13 +13,13 @@ cd "$(dirname "$0")/.."
 VERIF=$(pwd)
 export GOFLAGS=-mod=mod GOPROXY=off GOSUMDB=off GOTOOLCHAIN=local
 (cd tools/mutate && go build -o /var/tmp/mutate.bin .) || exit 2
-n=$(/var/tmp/mutate.bin -list ${funcs:+-funcs "$funcs"} /repo/$file | wc -l)
+n=$(/var/tmp/mutate.bin -ops ${MUT_OPS:-classic} -list ${funcs:+-funcs "$funcs"} /repo/$file | wc -l)
 one() {
   i=$1
-  desc=$(/var/tmp/mutate.bin -list ${funcs:+-funcs "$funcs"} /repo/$file | sed -n "$((i+1))p" | cut -f2-)
+  desc=$(/var/tmp/mutate.bin -ops ${MUT_OPS:-classic} -list ${funcs:+-funcs "$funcs"} /repo/$file | sed -n "$((i+1))p" | cut -f2-)
   W=$(mktemp -d /var/tmp/mut.XXXXXX); rmdir "$W"
   git -C /repo worktree add -q --detach "$W" HEAD 2>/dev/null || { echo "$file#$i: worktree failed"; return; }
-  /var/tmp/mutate.bin -apply $i ${funcs:+-funcs "$funcs"} /repo/$file > "$W/$file" 2>/dev/null
+  /var/tmp/mutate.bin -ops ${MUT_OPS:-classic} -apply $i ${funcs:+-funcs "$funcs"} /repo/$file > "$W/$file" 2>/dev/null
   res=""
   if ! (cd "$W" && go build ./... >/dev/null 2>&1); then res="nobuild"
   elif ! (cd "$W" && timeout 300 go test -vet=off -count=1 ./... >/dev/null 2>&1); then res="suite-kills"
@@ -34,5 +34,5 @@ one() {
   git -C /repo worktree remove --force "$W" 2>/dev/null
   echo "$file#$i [$desc]: $res"
 }
-export -f one; export file props funcs VERIF
+export -f one; export file props funcs VERIF MUT_OPS
 seq 0 $((n-1)) | xargs -P ${MUT_PAR:-4} -I{} bash -c 'one {}'
